@@ -68,7 +68,7 @@ class C05(Harness):
             ops = [o for o in ops if o not in (['update_bad', [['n', BAD], ['a', 2]]], ['update_bad', [['a', 2], ['zz', 1]]], ['trigger', ['a', 'ro']])]
             ops += [['update_bad', [['a', 2], ['n', BAD], ['e', 3]]], ['update_bad', [['a', 2], ['e', BAD]]]]
         if name == 'F1':
-            ops += [['cupdate_nonmap']]
+            ops += [['cupdate_nonmap'], ['update_getter_fails']]
         ops += [
                ['trigger', ['a']], ['trigger', ['e']], ['trigger', ['a', 'ro']], ['raise']]
         if nest < self.MAXNEST:
@@ -118,6 +118,18 @@ class C05(Harness):
                     raise Boom('body')
                 elif k == 'open' and op[1] == 'try':
                     stack.append(('try', None))
+                elif k == 'update_getter_fails':
+                    # a parameter whose getter raises (a Filename whose file has disappeared): update() fails while it collects the current values
+                    import os
+                    import tempfile
+                    fd, path = tempfile.mkstemp(dir='/var/tmp', prefix='c05_')
+                    os.close(fd)
+                    o.pf = path
+                    os.remove(path)
+                    try:
+                        o.param.update(a=world.vals[2])
+                    finally:
+                        o.pf = None
                 elif k == 'cupdate_nonmap':
                     world.cls.param.update(5)          # not a mapping: TypeError, and the class must not be left batching
                 elif k == 'update_bad':
